@@ -737,10 +737,11 @@ def _pred_mapped(m, chr_, phy, genpos, xoprob, check_pos=True):
             if xoprob[j] != 0.5: bad.append("marker %d starts chromosome %d but its crossover probability is %r, not exactly 0.5" % (j, chr_[j], xoprob[j]))
         else:
             d = genpos[j] - genpos[j - 1]
-            if d < 0: bad.append("harness: non-monotone map"); continue
+            # interpolation on a flat map segment can round to a gap of -1 ulp (scipy's barycentric form): tolerated as rounding
+            if d < -1e-12 * (1.0 + abs(genpos[j])): bad.append("harness: non-monotone map"); continue
             w = _mapfn(m["fn"], d)
             if not abs(xoprob[j] - w) <= 1e-12: bad.append("marker %d: crossover probability %r, map function of the gap %r is %r" % (j, xoprob[j], d, w))
-            if not (0.0 <= xoprob[j] < 0.5): bad.append("marker %d: crossover probability %r outside [0, 1/2)" % (j, xoprob[j]))
+            if not (-1e-12 <= xoprob[j] < 0.5): bad.append("marker %d: crossover probability %r outside [0, 1/2)" % (j, xoprob[j]))
     if m["fn"] == "haldane":                    # independent adjacent crossovers compose to the pairwise map function
         for i in range(n):
             t = 1.0
